@@ -8,6 +8,7 @@
 package mon
 
 import (
+	"runtime"
 	"crypto/sha256"
 	"encoding/hex"
 	"encoding/json"
@@ -240,6 +241,25 @@ func (r *Run) NViolations() int {
 
 // Finish writes the result document.
 func (r *Run) Finish(t testing.TB) {
+	// Finish is deferred by every TestCxx: a panic that escapes the code under test (no
+	// monitor wrapped that call) arrives here.  It is a violation of whatever property the
+	// test was checking ("never panics" is implicit everywhere), with the stack as witness.
+	if p := recover(); p != nil {
+		buf := make([]byte, 32<<10)
+		buf = buf[:runtime.Stack(buf, false)]
+		where := "?"
+		for _, l := range strings.Split(string(buf), "\n") {
+			if strings.Contains(l, "refraction-networking/utls.") && !strings.HasPrefix(l, "\t") {
+				where = l
+				if i := strings.Index(where, "("); i > 0 {
+					where = where[:strings.LastIndex(where, "(")]
+				}
+				break
+			}
+		}
+		r.Violation(map[string]string{"kind": "panic", "where": where}, fmt.Sprintf("the code under test panicked: %v (in %s)", p, where), map[string]any{"panic": fmt.Sprint(p), "stack": string(buf)})
+		t.Errorf("panic: %v", p)
+	}
 	r.mu.Lock()
 	defer r.mu.Unlock()
 	if r.finished {
